@@ -14,7 +14,7 @@ from ..interp import Interp, Hooks, Budget
 from ..state import State, Obj, IntV, PtrV, NULL, MAXLEN
 from ..terms import Lin, ZERO
 from . import own
-from .common import short, fn_loc, robust
+from .common import short, fn_loc, robust, slot_subst, subst
 
 LEVEL = 'proof'
 EXPLANATION = ('abstract interpretation of substr/left/right/trim* with free scalars over their whole type and symbolic string size; '
@@ -243,6 +243,8 @@ def trims(run, m, F, E, L):
                 if d.startswith('_ST_PRIVATE::find_cs(char const*, unsigned long, char)'):
                     # membership test in the character set: found or not (no effect on the string)
                     s2 = I.fork(st)
+                    st.ev('member', inst, args[0], args[1], args[2], True)
+                    s2.ev('member', inst, args[0], args[1], args[2], False)
                     return [(st, I.fresh_ptr(st, 'hit')), (s2, NULL)]
                 return None
             I = Interp(m, F, E, SliceHooks(m, stop))
@@ -251,6 +253,46 @@ def trims(run, m, F, E, L):
             cs = I.fresh_ptr(st, 'charset')
             outs = I.run(I.start(f, [PtrV(ret), PtrV(this), cs], st))
             s = entry['size']
+            # R08.6 step facts of the walks: a walk moves on only over a unit of the string that the membership test found in the
+            # character set handed to the function (the whole set: its strlen), and by exactly one unit
+            from ..terms import base_atoms
+            w_p, w_u, nwalk = [], [], 0
+            for o in outs:
+                if o.kind != 'backedge' or not o.info or o.info[0] != f.name:
+                    continue
+                s2 = o.st
+                hdr = o.info[1]
+                wi = max([k2 for k2, e in enumerate(s2.events) if e[0] == 'widen' and e[1] == f.name and e[2] == hdr] or [-1])
+                mem = [e for e in s2.events[wi + 1:] if e[0] == 'member']
+                if not mem:
+                    continue                # a loop that tests no membership (e.g. measuring the set)
+                nwalk += 1
+                if mem[-1][5] is not True:
+                    w_p.append('a walk moves on although the unit it tested last is not in the character set')
+                for e in mem:
+                    if not (isinstance(e[2], PtrV) and isinstance(cs, PtrV) and e[2].obj == cs.obj and s2.is_eq0(e[2].off - cs.off) is True):
+                        w_u.append('the membership test is not against the character set of the call')
+                    ua = [a for a in base_atoms(e[4].lin) if isinstance(a, tuple) and a[0] == 'load' and a[1] == entry['storage'].obj] if isinstance(e[4], IntV) else []
+                    if len(ua) != 1:
+                        w_u.append('the unit tested for membership is not recognised as a unit of the string')
+                        continue
+                    hb = s2.flags.get('hbegin:%s:%s' % (f.name, hdr)) or {}
+                    he = s2.flags.get('hend:%s:%s' % (f.name, hdr)) or {}
+                    p0 = ua[0][2]
+                    pn = subst(p0, slot_subst(hb, he))
+                    if pn is None:
+                        w_u.append('position of the next unit tested not expressible over the loop-carried values')
+                    else:
+                        d1 = pn - p0
+                        if not (s2.is_eq0(d1 - 1) is True or s2.is_eq0(d1 + 1) is True):
+                            if not d1.t or (robust([d1]) and s2.find_model([d1], lambda v: abs(v[0]) != 1) is not None):
+                                w_p.append('a walk moves by %r units per member of the set, not by one' % (d1,))
+                            else:
+                                w_u.append('step of the walk (%r) not decided' % (d1,))
+            if nwalk == 0:
+                w_u.append('no walk iteration explored')
+            run.ob('R08.6', short(f.dem), False if w_p else (None if w_u else True), w_p[0] if w_p else (w_u[0] if w_u else
+                   'walks advance one unit at a time, only over units found in the character set (%d iteration paths)' % nwalk), disc='this=%s / walks' % cls, loc=fn_loc(f))
             for o in outs:
                 if o.kind in ('backedge', 'unreachable'):
                     continue
